@@ -756,6 +756,8 @@ fn extract_case(rng: &mut Rng, cfg: &Cfg, ops: &[Op], variant: u64) -> Value {
         let n = rng.range(1, 30);
         case["readSched"] = json!((0..n).map(|_| *rng.pick(&[1u64, 2, 3, 5, 17, 100, 4096])).collect::<Vec<_>>());
     }
+    // one case in three: the writer handed out for the first file has a NULL context (opaque to the library)
+    if rng.chance(1, 3) { case["nullCtxFirst"] = json!(true); }
     // expectations per call: "success" | "badarg" | "error" | "config"
     let mut expect: Vec<&str> = calls.iter().map(|_| "success").collect();
     let mut inserted: Vec<Value> = vec![];
@@ -1045,7 +1047,13 @@ fn gen_opts(rng: &mut Rng, big: bool) -> GenOpts {
 fn c_ops(rng: &mut Rng, big: bool) -> Vec<Op> {
     // C strings: no interior NUL (the generator never produces one)
     let o = gen_opts(rng, big);
-    gen_valid_ops(rng, &o)
+    // names go through the C interface as NUL-terminated strings: a name with an interior NUL cannot be passed
+    // (it is not in the domain of these entry points); the generator's NUL is replaced
+    gen_valid_ops(rng, &o).into_iter().map(|op| match op {
+        Op::Start(n) => Op::Start(n.replace('\0', "_")),
+        Op::Add { name, size, src } => Op::Add { name: name.replace('\0', "_"), size, src },
+        other => other,
+    }).collect()
 }
 fn enc_cfg(rng: &mut Rng) -> Cfg {
     Cfg::make(rng, L_ENC | L_COMP)
